@@ -37,7 +37,7 @@ def main():
     thorough = ctx.tier == "thorough"
     ctx.rule = ("TLC enumerates every (constraint kind, lower, upper, n) with bounds in -1..5 and n in 0..6; each behaviour "
                 "is the client-visible observation sequence (i-th solution | exception class | stop) per next(); "
-                "replayed on an(entity)/an(set_of)/the over real domains in 5 query forms; every sequence of per-binding solution "
+                "replayed on an(entity)/an(set_of)/the over real domains in 6 query forms (one whose domain holds values of other types), each query object evaluated three times; every sequence of per-binding solution "
                 "counts (0..2, up to 4 bindings) for a the(...) nested in and correlated with an enclosing query. Non-trivial = the constraint "
                 "was constructed and at least one next() happened; distinct by (kind, lo, hi, n, form).")
     # 1. model checking: I => R, switches off; non-vacuity: each switch on must be refuted
@@ -49,7 +49,7 @@ def main():
     behs = gen.json_lines()
     if len(behs) < 100:
         raise MachineryError(f"Quantifier_gen produced only {len(behs)} behaviours")
-    forms = ["entity", "setof", "nocond", "two", "falsy"]
+    forms = ["entity", "setof", "nocond", "two", "falsy", "typed"]
     cases = []
     for b in behs:
         for form in forms:
@@ -104,6 +104,9 @@ def main():
         if r["obs"] != exp:
             ctx.violation({"case": c, "expected": exp, "observed": r["obs"]},
                           note="observation sequence differs from Quantifier.Expected")
+        elif any(a != exp for a in r.get("again", [])):
+            ctx.violation({"case": c, "expected": exp, "observed_on_later_evaluations": r["again"]},
+                          note="a later evaluation of the same quantified query object does not follow Quantifier.Expected")
     ctx.exhaustive = True
     if thorough or os.environ.get("VERIF_APALACHE") == "1":
         ctx.cov["apalache_obligations"] = apalache(ctx)
